@@ -1032,11 +1032,13 @@ func (store *KeyStore) destroyKeyWithFilename(filename string) error {
 	// Remove key files. It's okay if they are already removed (or never existed).
 	// Keystore v1 does not differentiate between 'destroying' and 'removing' keys
 	// because multiple functinons depend on the key file to be absent, not empty.
-	err := store.fs.Remove(store.GetPrivateKeyFilePath(filename))
+	// The public key goes first: if the operation is interrupted in between, nothing can be
+	// encrypted with a public key whose private key is already gone.
+	err := store.fs.Remove(store.GetPublicKeyFilePath(filename + ".pub"))
 	if err != nil && !os.IsNotExist(err) {
 		return err
 	}
-	err = store.fs.Remove(store.GetPublicKeyFilePath(filename + ".pub"))
+	err = store.fs.Remove(store.GetPrivateKeyFilePath(filename))
 	if err != nil && !os.IsNotExist(err) {
 		return err
 	}
